@@ -29,7 +29,7 @@ CLAIMED = {
              text="Decides the mechanisms without which the incremental event->heads index cannot be exact: only the notifying setters move a head, every constructed or deserialised head has both callbacks bound to its own flow before it moves, every deletion of heads/flow states de-registers first, the index has exactly two symmetric maintainers, and the event loop ends only with an empty queue. The invariant over all reachable states is not decided. Found and repaired F7.",
              ref="DESIGN.md C09"),
  "C10": dict(tech="resolved call graph from run_to_completion with exception-containment cut: frontier edges into evaluator-reaching functions must lie inside the per-flow try or be triaged table entries; handler shape; API-level try in process_events",
-             text="Claims the ISOLATION clause only: every call edge from the uncontained event loop into a function that can evaluate Colang expressions (or raise Colang errors) is either inside the per-flow try whose handler fails only that flow, a benign edge with a stated reason, or a demonstrated known finding (F8.1-F8.4); process_events converts escaping exceptions into a ColangError event with a handler that cannot raise. Termination is not decided by this family.",
+             text="Claims the ISOLATION clause, plus the named termination guards (immediate finish/failure of activated flows - F20 known -, cumulative event cap, escaping in ColangError handler flows): every call edge from the uncontained event loop into a function that can evaluate Colang expressions (or raise Colang errors) is either inside the per-flow try whose handler fails only that flow, a benign edge with a stated reason, or a demonstrated known finding (F8.1-F8.4); process_events converts escaping exceptions into a ColangError event with a handler that cannot raise. Termination in general is not decided by this family.",
              ref="DESIGN.md C10"),
  "C13": dict(tech="exception-conversion totality: lexical try coverage of the parse call, per-handler raise discipline, guarded-read / bounded-index analysis of everything the handler evaluates on the caught exception (through the resolved call graph); grammar-text facts; regex AST star-height check (thorough)",
              text="Decides the error-path clause: reading and parsing a Colang file happen inside a try with a handler for Exception, every handler ends by raising ColangParsingError naming the path, and everything evaluated on the caught exception tolerates an arbitrary exception object. Layout invariance is only backed by grammar-level necessary facts; parser termination is not decided. Found and repaired F11.",
